@@ -262,6 +262,7 @@ func (in *Inst) checkInvs(lp *Loop, kind, guard string, env *SpecEnv, st *State,
 			t := in.specBool(iv.Expr, env)
 			o := e.oblige(kind, fmt.Sprintf("%s#%d", lk, i), lp.header.Instrs[0].Pos(), guard, t)
 			o.Top = iv.Top
+			o.Prop = iv.Prop
 		}
 	}
 	for _, ai := range lp.autoInvs {
